@@ -26,6 +26,7 @@ import json
 import multiprocessing
 import os
 import random
+import re
 import threading
 import time
 import zlib
@@ -114,9 +115,10 @@ def show_allowed_pos(allowed):
 
 def classify(a_c, v_c, fn, got=None):
     """A hint for the reader of a violation (never changes the verdict)."""
-    if len(a_c) == 1 and fn.startswith('formula') and \
-            isinstance(got, BaseException) and 'len()' in str(got):
-        return 'one-cell range'
+    if len(a_c) == 1 and fn.startswith('formula') and (
+            isinstance(a_c[0], str) or
+            isinstance(got, BaseException) and 'len()' in str(got)):
+        return 'one-cell range'      # reaches MATCH as a scalar
     if isinstance(v_c, str) and ('*' in v_c or '?' in v_c) and any(
             ch in x for ch in PUNCT for x in [v_c] + a_c if isinstance(x, str)):
         return 'wildcard pattern next to a regex-special character'
@@ -592,6 +594,10 @@ def model_run(d, name, modes_expr, label, v, *, workers=16, simulate=None,
         raise tlc.MachineryFailure(
             f'Lookup model ({label}) violates {res.violated}:\n' + res.stdout[-3000:])
     vectors = res.json
+    if simulate is not None:
+        m = re.search(r'The number of states generated: (\d+)', res.stdout)
+        res.generated = int(m.group(1)) if m else len(vectors)
+        res.distinct = 0          # counted after removing duplicates
     res.stdout = ''
     v.add_tlc(res, label)
     coverage = {}
@@ -639,9 +645,10 @@ def dedup(vectors):
 # ------------------------------------------------------------------ run ---
 QUICK_FPROB = {'*': 0.003, ('vec', 1): 0.25, ('vec', 2): 0.04, ('vec', 3): 0.006,
                ('tbl', 1): 0.4, ('tbl', 2): 0.06, ('tbl', 3): 0.015, ('tbl', 4): 0.006}
-THOROUGH_FPROB = {'*': 0.02, ('vec', 1): 1.0, ('vec', 2): 0.5, ('vec', 3): 0.1,
-                  ('tbl', 1): 1.0, ('tbl', 2): 0.5, ('tbl', 3): 0.2,
-                  ('tbl', 4): 0.06, ('tbl', 5): 0.03, ('tbl', 6): 0.02}
+THOROUGH_FPROB = {'*': 0.008, ('vec', 1): 1.0, ('vec', 2): 0.3, ('vec', 3): 0.05,
+                  ('vec', 4): 0.015, ('tbl', 1): 1.0, ('tbl', 2): 0.3,
+                  ('tbl', 3): 0.1, ('tbl', 4): 0.03, ('tbl', 5): 0.012,
+                  ('tbl', 6): 0.006}
 
 BIG = [('wide<=4', 'BigModes[1]', 0), ('four values<=6', 'BigModes[2]', 0),
        ('neutral<=5', 'BigModes[3]', 0), ('one per type<=8', 'BigModes[4]', 0),
@@ -677,17 +684,20 @@ def run(tier, seed):
             execute(v, vectors, looks, seed, THOROUGH_FPROB, totals)
             del vectors
         # random part: wide pool, any order, up to length 8 / tables 6 x 4
-        for k, (label, expr, num, depth) in enumerate((
-                ('simulate wide<=8', 'SimModes[1]', 4000, 9),
-                ('simulate table 6x4', 'SimModes[2]', 800, 7))):
+        # (-simulate num= is per worker; every state of a trace is exported)
+        for k, (label, expr, num, depth, longest) in enumerate((
+                ('simulate wide<=8', 'SimModes[1]', 400, 9, 8),
+                ('simulate table 6x4', 'SimModes[2]', 60, 7, 6))):
             vectors, _ = model_run(
-                d, f'MC_LookupS{k}', f'<<{expr}>>', label, v, workers=8,
-                simulate=dict(num=num), depth=depth, seed=seed + 1, timeout=240)
+                d, f'MC_LookupS{k}', f'<<{expr}>>', label, v, workers=4,
+                simulate=dict(num=num), depth=depth, seed=seed + 1, timeout=300)
             collect(vectors, f's{k}', looks, 0, None, label)
             vectors = dedup(vectors)
-            if len(vectors) < num:
+            if not any(len(vec['a']) == longest for vec in vectors):
                 raise tlc.MachineryFailure(
-                    f'{label}: only {len(vectors)} distinct vectors from {num} traces')
+                    f'{label}: no vector of length {longest} among '
+                    f'{len(vectors)} simulated vectors')
+            v.states += len(vectors)
             nvec += len(vectors)
             execute(v, vectors, looks, seed, THOROUGH_FPROB, totals)
             del vectors
